@@ -201,10 +201,16 @@ impl PoolEntry {
 		MethodDescriptor::try_from(pool.get_utf8(descriptor_index).context("while getting method type")?)
 	}
 
-	fn as_dynamic(&self, pool: &PoolRead, bootstrap_methods: &Option<Vec<BootstrapMethodRead>>) -> Result<ConstantDynamic> {
+	fn as_dynamic(&self, pool: &PoolRead, bootstrap_methods: &Option<Vec<BootstrapMethodRead>>, depth: u8) -> Result<ConstantDynamic> {
 		let PoolEntry::Dynamic { bootstrap_method_attribute_index, name_and_type_index } = *self else {
 			bail!("pool entry not `Dynamic`: {self:?}");
 		};
+
+		// The static arguments of a dynamic constant may be dynamic constants again. A constant that (directly or
+		// indirectly) lists itself as an argument would otherwise recurse until the stack overflows.
+		if depth >= MAX_DYNAMIC_CONSTANT_NESTING {
+			bail!("`Dynamic` pool entries are nested more than {MAX_DYNAMIC_CONSTANT_NESTING} levels deep (or refer to themselves)");
+		}
 
 		let FieldNameAndDesc { name, desc: descriptor } = pool.get_field_name_and_type(name_and_type_index)?;
 
@@ -218,7 +224,7 @@ impl PoolEntry {
 		let arguments = {
 			let mut vec = Vec::with_capacity(method.arguments.len());
 			for &argument in &method.arguments {
-				let value = pool.get_loadable(argument, bootstrap_methods)
+				let value = pool.get_loadable_nested(argument, bootstrap_methods, depth + 1)
 					.with_context(|| anyhow!("while argument for `Dynamic` at index {bootstrap_method_attribute_index:?}: {name:?} {descriptor:?} {handle:?}"))?;
 				vec.push(value); // TODO: recursion
 			}
@@ -255,7 +261,7 @@ impl PoolEntry {
 		Ok(InvokeDynamic { name, descriptor, handle, arguments })
 	}
 
-	fn as_loadable(&self, pool: &PoolRead, bootstrap_methods: &Option<Vec<BootstrapMethodRead>>) -> Result<Loadable> {
+	fn as_loadable(&self, pool: &PoolRead, bootstrap_methods: &Option<Vec<BootstrapMethodRead>>, depth: u8) -> Result<Loadable> {
 		match self {
 			PoolEntry::Integer { .. } => Ok(Loadable::Integer(self.as_integer()?)),
 			PoolEntry::Float { .. } => Ok(Loadable::Float(self.as_float()?)),
@@ -265,7 +271,7 @@ impl PoolEntry {
 			PoolEntry::String { .. } => Ok(Loadable::String(self.as_string(pool)?)),
 			PoolEntry::MethodHandle { .. } => Ok(Loadable::MethodHandle(self.as_method_handle(pool)?)),
 			PoolEntry::MethodType { .. } => Ok(Loadable::MethodType(self.as_method_type(pool)?)),
-			PoolEntry::Dynamic { .. } => Ok(Loadable::Dynamic(self.as_dynamic(pool, bootstrap_methods)?)),
+			PoolEntry::Dynamic { .. } => Ok(Loadable::Dynamic(self.as_dynamic(pool, bootstrap_methods, depth)?)),
 			_ => bail!("pool entry is not loadable: {self:?}"),
 		}
 	}
@@ -281,6 +287,9 @@ impl PoolEntry {
 		}
 	}
 }
+
+/// The deepest nesting of dynamic constants as static arguments of dynamic constants that is read.
+const MAX_DYNAMIC_CONSTANT_NESTING: u8 = 16;
 
 pub(crate) struct PoolRead {
 	/// We store a [`None`] for the zero index, as well as for the upper indices of [`PoolEntry::Double`] and [`PoolEntry::Long`].
@@ -507,7 +516,12 @@ impl PoolRead {
 	///
 	/// These are collected in the [`Loadable`] type.
 	pub(crate) fn get_loadable(&self, index: u16, bootstrap_methods: &Option<Vec<BootstrapMethodRead>>) -> Result<Loadable> {
-		self.get(index)?.as_loadable(self, bootstrap_methods).pool_context(index)
+		self.get_loadable_nested(index, bootstrap_methods, 0)
+	}
+
+	/// Like [`PoolRead::get_loadable`], for a loadable that is the `depth`-th nested argument of a dynamic constant.
+	fn get_loadable_nested(&self, index: u16, bootstrap_methods: &Option<Vec<BootstrapMethodRead>>, depth: u8) -> Result<Loadable> {
+		self.get(index)?.as_loadable(self, bootstrap_methods, depth).pool_context(index)
 	}
 
 	pub(crate) fn get_constant_value(&self, index: u16) -> Result<ConstantValue> {
